@@ -49,6 +49,10 @@ def tasks(tier):
     ts.append(("run maxiter=0", "run_scenario", dict(pattern=[], maxiter=0)))
     ts.append(("run nan", "run_nan", {}))
     ts.append(("tools.solve", "run_tools_solve", {}))
+    # the same obligations on the inputs the generic evaluation leaves out: values that are unequal but within numpy's isclose tolerance
+    for p in ([True], [False, True], [False, False]):
+        ts.append(("run %s close" % "".join("T" if x else "F" for x in p), "run_scenario", dict(pattern=list(p), maxiter=len(p), close=True)))
+    ts.append(("tools.solve close", "run_tools_solve", dict(close=True)))
     return ts
 
 
@@ -214,10 +218,20 @@ def _run_newton(it, pattern, maxiter, log, nfields=1, nan_at=None):
     return res, fc, n, dof0, dof1, ext0, items, u_start, m
 
 
-def run_scenario(col, pattern, maxiter):
+def run_scenario(col, pattern, maxiter, close=False):
+    npmodel.CLOSE_WORLD[0] = "close" if close else "generic"
+    try:
+        _run_scenario(col, pattern, maxiter, close)
+    finally:
+        npmodel.CLOSE_WORLD[0] = "generic"
+
+
+def _run_scenario(col, pattern, maxiter, close):
     it = new_interp()
     log = []
     name = "".join("T" if x else "F" for x in pattern) or "maxiter=0"
+    if close:
+        name += " [inputs on which tolerance predicates answer 'close']"
     converges = bool(pattern) and pattern[-1]
     try:
         res, fc, n, dof0, dof1, ext0, items, u_start, m = _run_newton(it, pattern, maxiter, log)
@@ -325,7 +339,15 @@ def run_nan(col):
     finish_info(col, it)
 
 
-def run_tools_solve(col):
+def run_tools_solve(col, close=False):
+    npmodel.CLOSE_WORLD[0] = "close" if close else "generic"
+    try:
+        _run_tools_solve(col, close)
+    finally:
+        npmodel.CLOSE_WORLD[0] = "generic"
+
+
+def _run_tools_solve(col, close):
     """tools._solve.solve: the partitioned solve split by field offsets"""
     it = new_interp()
     fc, n, dof0, dof1, ext0, regs = scenario.make_problem(it, nfields=2)
@@ -349,5 +371,5 @@ def run_tools_solve(col):
     flat = np.concatenate([npmodel.to_obj(np.asarray(x)).reshape(-1) for x in d])
     okp = all(is_zero(P(flat[j]) - (ext0[b] - u[j])) for b, j in enumerate(dof0))
     sizes = [len(np.asarray(x).reshape(-1)) for x in d]
-    col.add("C07.O5", "tools.solve", "for the right-hand side f of K u = f: K11 du1 = f1 - K10 (ext0 - u0), du0 = ext0 - u0, result split by the field offsets", not bad and okp and sizes == [8, 2], "rows %s sizes %s" % (bad, sizes))
+    col.add("C07.O5", "tools.solve" + (" [inputs on which tolerance predicates answer 'close']" if close else ""), "for the right-hand side f of K u = f: K11 du1 = f1 - K10 (ext0 - u0), du0 = ext0 - u0, result split by the field offsets", not bad and okp and sizes == [8, 2], "rows %s sizes %s" % (bad, sizes))
     finish_info(col, it)
